@@ -33,8 +33,9 @@ type Closure struct {
 }
 
 type Float struct {
-	F float64
-	T *Term // non-nil: symbolic float64 term
+	F    float64
+	T    *Term // non-nil: symbolic term; T.W == -64 (float64) or -32 (float32)
+	Is32 bool  // concrete float32 value (held exactly in F)
 }
 
 type BigInt struct{ T *Term } // W == -1
